@@ -22,5 +22,3 @@ for id in $ids; do
   fi
 done
 git -C /repo worktree remove --force $wt
-# evidence files were rewritten by runs against a mutated tree: restore the committed ones
-git checkout -- evidence 2>/dev/null || true
